@@ -1,7 +1,7 @@
 """C11 - word finding is lossless and breaks exactly at the specified opportunities."""
 from ..sym import sym_of, subterms
 from ..engine import AnchorMissing, loop_models
-from ..poly import poly, fact_nf
+from ..poly import poly, fact_nf, GT0, GE0, EQ0, NE0
 from ..paths import loop_system, PathView, fn_paths, contradictory, loop_state_vars, entry_value
 from ..describe import describe
 from ..engines.schemas import resolve_iter, index_iter_base, range_parts, closure_return_term, closure_env, item_source
@@ -108,7 +108,7 @@ def chain_closure(prog, rep, rule, cb, idx_ok, wrapper_ok):
                     "the final piece starts at %s instead of the cut index" % D(st), site=site)
             ln = ("call", "str::len", (base,))
             nfs = [fact_nf(f) for f in rp.facts if f[0][0] == "cmp"]
-            r.check(("gt0", poly(ln) - poly(startv)) in nfs, "tail-guard", "the final piece is yielded iff start < line.len()",
+            r.check(GT0(poly(ln) - poly(startv)) in nfs, "tail-guard", "the final piece is yielded iff start < line.len()",
                     "path condition start < len", "the final piece is yielded under %s, expected start < line.len()"
                     % [(k, p.show(D)) for k, p in nfs], site=site)
             r.check(nxt == ln, "tail-advance", "after the final piece start := line.len()", "next(start) = len",
